@@ -156,6 +156,8 @@ def build_msg(spec):
     if kind == "binary":
         return "send_binary", body, (rm.BINARY, body)
     body = body[:125]
+    if kind == "pong":
+        return "pong", body, (rm.PONG, body)  # an unsolicited pong (a one-way heartbeat)
     return "ping", body, (rm.PING, body)
 
 
@@ -163,7 +165,7 @@ def run_threads(case):
     import websocket
 
     obs = Obs()
-    sched = simkit.Sched(choices=case.get("choices", []), preempt=case.get("preempt"), preempt_at=case.get("preempt_at"), horizon=500.0, repo=REPO, max_steps=600000)
+    sched = simkit.Sched(choices=case.get("choices", []), preempt=case.get("preempt"), preempt_at=case.get("preempt_at"), fallback=case.get("fallback", 0), horizon=500.0, repo=REPO, max_steps=600000)
     net = simkit.SimNet(sched)
     stream_specs = case.get("stream", [])
     wire_in, frames_in, ends_in = rx.wire_of(stream_specs) if stream_specs else (b"", [], [])
@@ -265,14 +267,18 @@ def run_threads(case):
         for (op, payload), ret in lst:
             exp.append((op, payload))
             want_len = len(rm.encode_frame(1, op, payload, mask_key=b"\0\0\0\0"))
-            if op != rm.PING and ret != want_len:
+            if op not in (rm.PING, rm.PONG) and ret != want_len:
                 obs.fail(f"{tag}|send-return-value", f"thread {i}: send returned {ret}, frame length {want_len}")
     pings_in = [f.payload for f in frames_in if f.opcode == rm.PING]
     got_pongs = [f.payload for f in fr if f.opcode == rm.PONG]
     got_other = sorted((f.opcode, f.payload) for f in fr if f.opcode != rm.PONG)
-    if got_other != sorted(exp) and not left and not bad:
-        miss = len(exp) - len(got_other)
-        obs.fail(f"{tag}|frames-on-wire-differ-from-frames-sent", f"{len(got_other)} non-pong frames on the wire, {len(exp)} sent ({'missing' if miss > 0 else 'extra/corrupted'})")
+    own_pongs = [p for (op, p) in exp if op == rm.PONG]  # pongs the application sent itself
+    exp_other = [e for e in exp if e[0] != rm.PONG]
+    if got_other != sorted(exp_other) and not left and not bad:
+        miss = len(exp_other) - len(got_other)
+        obs.fail(f"{tag}|frames-on-wire-differ-from-frames-sent", f"{len(got_other)} non-pong frames on the wire, {len(exp_other)} sent ({'missing' if miss > 0 else 'extra/corrupted'})")
+    if not (nrecv and api == "recv") and sorted(got_pongs) != sorted(own_pongs) and not left and not bad:
+        obs.fail(f"{tag}|pongs-on-wire-differ-from-pongs-sent", f"pong() was called with {sorted(own_pongs)[:3]}, the wire has {sorted(got_pongs)[:3]}")
     # per-thread order
     pos = {}
     for idx, f in enumerate(fr):
@@ -292,7 +298,7 @@ def run_threads(case):
             model = rm.StreamModel()
             ev, _w = model.run(frames_in)
             want = sorted(("R", "str" if e[1] == rm.TEXT else "bytes", e[3]) for e in ev if e[0] == "ret" and e[1] in (rm.TEXT, rm.BINARY))
-            if sorted(pings_in) != sorted(got_pongs):
+            if sorted(pings_in + own_pongs) != sorted(got_pongs):
                 obs.fail(f"{tag}|pongs-differ-from-pings", f"pings {len(pings_in)}, pongs on the wire {len(got_pongs)}")
         else:
             want = sorted(("F", f.opcode, f.fin, f.payload) for f in frames_in)
@@ -317,14 +323,111 @@ def _cls_threads(obs, case, sched):
     return obs
 
 
+def run_reentrant(case):
+    """The sending thread itself sends again while one of its frames is only partly written (a signal handler of the
+    application, a callback run by the transport): the nested frame must not land inside the outer one. Not getting
+    anywhere (the nested call waits for the lock its own thread holds) keeps the wire intact and is accepted."""
+    import websocket
+
+    obs = Obs()
+    sched = simkit.Sched(horizon=500.0, repo=REPO, max_steps=600000)
+    sched.report_self_deadlock = True
+    net = simkit.SimNet(sched)
+    sc = simpeers.Scenario(sched, net, [{"timeline": [], "default_pong": None}])
+    call, arg, (op, payload) = build_msg(case["outer"])
+    ncall, narg, (nop, npayload) = build_msg(case["nested"])
+    st_ = {"sends": 0, "nested": None, "outer": None, "at": None}
+    hs_len = [0]
+
+    def body():
+        if case.get("entry") == "create_connection":
+            ws = websocket.create_connection("ws://c12.test/", timeout=6.0)
+        else:
+            ws = websocket.WebSocket()
+            ws.settimeout(6.0)
+            ws.connect("ws://c12.test/")
+        sock = net.sockets[0]
+        hs_len[0] = len(sock.sent)
+        sock.accept = list(case["accept"])
+
+        def hook(sk, data):
+            st_["sends"] += 1
+            if st_["sends"] == case["at"] and st_["nested"] is None:
+                st_["nested"] = "started"
+                st_["at"] = len(sk.sent) - hs_len[0]
+                try:
+                    getattr(ws, ncall)(narg)
+                    st_["nested"] = "returned"
+                except simkit.SelfDeadlock:
+                    st_["nested"] = "blocks-for-ever"
+                    raise
+                except Exception as e:  # noqa: BLE001
+                    st_["nested"] = e
+
+        sock.on_send = hook
+        try:
+            getattr(ws, call)(arg)
+            st_["outer"] = "returned"
+        except simkit.SelfDeadlock:
+            st_["outer"] = "never-returns"
+        except Exception as e:  # noqa: BLE001
+            st_["outer"] = e
+
+    with simkit.installed(sched, net):
+        try:
+            main = sched.run(body)
+        except simkit.HarnessStuck as e:
+            raise HarnessError(str(e))
+    tag = "reentrant"
+    if sched.hang:
+        obs.fail(f"{tag}|hang|{sched.hang[0]}", sched.hang[1])
+    elif main.exc is not None:
+        obs.fail(exc_bucket(f"{tag}|main-raised", main.exc), f"{type(main.exc).__name__}: {main.exc}")
+    else:
+        out = bytes(net.sockets[0].sent[hs_len[0]:])
+        fr, left = rm.decode_frames(out)
+        whole = [(f.opcode, f.payload) for f in fr if f.masked and not f.rsv]
+        outer_len = len(rm.encode_frame(1, op, payload, mask_key=b"\0\0\0\0"))
+        if st_["nested"] == "returned":
+            # the nested call went through: both frames must be on the wire, each in one piece
+            if left or sorted(whole) != sorted([(op, payload), (nop, npayload)]) or len(whole) != len(fr):
+                obs.fail(f"{tag}|nested-frame-inside-outer-frame", f"nested {ncall}() started after {st_['at']} of {outer_len} bytes of the outer frame and returned; "
+                         f"the wire decodes to {[(f.opcode, len(f.payload)) for f in fr][:4]} + {len(left)} stray bytes")
+        elif st_["nested"] == "blocks-for-ever":
+            # what was written before the thread stopped for good is the beginning of the outer frame and nothing else
+            hl = 2 + (0 if len(payload) < 126 else 2 if len(payload) < 65536 else 8)
+            key = out[hl:hl + 4] if len(out) >= hl + 4 else b"\0\0\0\0"
+            ref = rm.encode_frame(1, op, payload, mask_key=key)
+            if out[:hl] != ref[:hl][: len(out)] or (len(out) >= hl + 4 and out != ref[: len(out)]):
+                obs.fail(f"{tag}|wire-damaged-before-the-deadlock", f"{len(out)} bytes written, not a prefix of the outer frame")
+        elif isinstance(st_["nested"], Exception):
+            # refused in some other way: the outer frame must still be whole
+            if left or (op, payload) not in whole:
+                obs.fail(exc_bucket(f"{tag}|nested-refused-but-outer-frame-damaged", st_["nested"]), f"{st_['nested']!r}; wire: {[(f.opcode, len(f.payload)) for f in fr][:4]} + {len(left)} stray bytes")
+    obs.cls = ("reentrant", f"nested:{st_['nested'] if isinstance(st_['nested'], str) else type(st_['nested']).__name__}", f"outer:{case['outer'][0]}", f"inner:{case['nested'][0]}", f"at-write:{case['at']}")
+    obs.nt = repr((case["outer"], case["nested"], case["at"], case["accept"])) if st_["nested"] is not None else None
+    return obs
+
+
+def reentrant_cases():
+    for outer in (["binary", "OUT", 300], ["text", "OUT", 40], ["ping", "OUT", 20], ["binary", "OUT", 70000]):
+        for nested in (["binary", "IN", 10], ["text", "IN", 200], ["ping", "IN", 4], ["pong", "IN", 4]):
+            for at in (2, 3, 5):
+                for accept in ([3, 7, 2, 50], [1] * 12, [6, 1000]):
+                    for entry in ("WebSocket", "create_connection"):
+                        yield {"mode": "reentrant", "outer": outer, "nested": nested, "at": at, "accept": accept, "entry": entry}
+
+
 def run_case(case):
+    if case["mode"] == "reentrant":
+        return run_reentrant(case)
     if case["mode"] == "partial":
         return run_partial_str(case) if "text" in case else run_partial(case)
     return run_threads(case)
 
 
 # ---------------------------------------------------------------------------
-msg = st.tuples(st.sampled_from(["text", "binary", "ping"]), st.just(""), st.sampled_from([4, 4, 30, 130, 2000, 17000, 70000])).map(list)
+msg = st.tuples(st.sampled_from(["text", "binary", "ping", "pong"]), st.just(""), st.sampled_from([4, 4, 30, 130, 2000, 17000, 70000])).map(list)
 
 
 @st.composite
@@ -404,10 +507,15 @@ FIXED = [
     {"mode": "frame-receivers", "receivers": 2, "recv_api": "recv_frame", "stream": [{"fin": 1, "op": 2, "p": b"M0|" + b"q" * 200}, {"fin": 1, "op": 1, "p": b"M1|x"}, {"fin": 1, "op": 2, "p": b"M2|yy"}], "cuts": [1, 5, 100]},
     {"mode": "mixed", "senders": [[["text", "T0-0", 130]], [["binary", "T1-0", 2000]]], "receivers": 2, "recv_api": "recv",
      "stream": [{"fin": 1, "op": 1, "p": b"M0|hello"}, {"fin": 1, "op": 9, "p": b"p0"}, {"fin": 1, "op": 2, "p": b"M1|" + b"k" * 50}], "cuts": [4], "accept": [5, 50]},
+    # two threads send heartbeat pongs of different sizes at the same time
+    {"mode": "senders", "senders": [[["pong", "T0-0", 23], ["pong", "T0-1", 5]], [["pong", "T1-0", 5], ["text", "T1-1", 40]]], "accept": [2, 9]},
     # a ping arrives at the very instant a sender is in the middle of a many-write frame: the automatic pong must not cut into it
     {"mode": "mixed", "senders": [[["binary", "T0-0", 300, 0.05]], [["text", "T1-0", 40, 0.05]]], "receivers": 1, "recv_api": "recv",
      "stream": [{"fin": 1, "op": 9, "p": b"now"}, {"fin": 1, "op": 1, "p": b"M0|x"}], "cuts": [], "accept": [3, 7, 2]},
 ]
+
+
+FIRST_LINES = 16
 
 
 def measure_steps(case):
@@ -421,13 +529,15 @@ def measure_steps(case):
 
 
 def jobs(tier, seed):
-    out = [{"name": "compositions", "kind": "comp"}]
+    out = [{"name": "compositions", "kind": "comp"}, {"name": "reentrant", "kind": "reentrant"}]
     n, shards = (2400, 8) if tier == "quick" else (192000, 16)
     for i in range(shards):
         out.append({"name": f"hyp-t-{i}", "kind": "hyp-t", "seed": seed * 1000 + i, "n": n // shards})
     out.append({"name": "hyp-p", "kind": "hyp-p", "seed": seed * 1000 + 99, "n": 400 if tier == "quick" else 16000})
     out += [{"name": f"structured-{i}", "kind": "structured", "shard": i, "of": 4} for i in range(4)]
     stride = 16
+    for fi in range(len(FIXED)):
+        out += [{"name": f"preempt-first-{fi}-{sh}", "kind": "preempt-first", "fixed": fi, "shard": sh, "of": 3} for sh in range(3)]
     for fi in range(len(FIXED)):
         for sh in range(4 if tier == "quick" else 16):
             out.append({"name": f"preempt-{fi}-{sh}", "kind": "preempt", "fixed": fi, "shard": sh, "of": 4 if tier == "quick" else 16,
@@ -444,6 +554,9 @@ def run_job(job, coll):
             for ci, parts in enumerate(compositions(flen)):
                 coll.check({"mode": "partial", "payload": payload, "accept": parts, "op": 2, "dispatcher": (None, "plain", "ssl", "wrapped")[(ci + n) % 4]}, run_case)
         coll.exhaustive["(A) all short-write compositions for frames of 6..11 bytes"] = True
+    elif k == "reentrant":
+        for c in reentrant_cases():
+            coll.check(c, run_case)
     elif k == "structured":
         from ..sizes import structured
 
@@ -464,6 +577,22 @@ def run_job(job, coll):
         hyp_run(coll, thread_cases(), run_case, job["seed"], job["n"])
     elif k == "hyp-p":
         hyp_run(coll, partial_cases(), run_case, job["seed"], job["n"])
+    elif k == "preempt-first":
+        # a preemption at each of the first lines every function of the package executes in the scenario (the first use of
+        # anything is where lazily created state is born), followed by either other thread
+        base = FIXED[job["fixed"]]
+        i = 0
+        funcs = _func_lines(base)
+        for key in sorted(funcs):
+            for line in range(1, min(funcs[key], FIRST_LINES) + 1):
+                for ch in (1, 2):
+                    i += 1
+                    if i % job["of"] == job["shard"]:
+                        coll.check(dict(base, preempt_at={key: {str(line): ch}}), run_case)
+                        # ... and: the preempted thread is passed over for the next 40 scheduling decisions while the others alternate at every step
+                        coll.check(dict(base, preempt_at={key: {str(line): [ch, 40]}}, fallback=1), run_case)
+        coll.exhaustive[f"a preemption at each of the first {FIRST_LINES} lines executed in every function, fixed scenario {job['fixed']}"] = True
+        coll.notes[f"functions_scenario_{job['fixed']}"] = len(funcs)
     elif k == "preempt":
         base = FIXED[job["fixed"]]
         # dry run with tracing on to learn how many line steps the scenario has
@@ -501,4 +630,15 @@ def _count_steps(case):
     finally:
         simkit.Sched.__init__ = orig
     _STEP_CACHE[key] = max(1, holder["s"].steps)
+    _FUNC_CACHE[key] = dict(holder["s"]._fcount)
     return _STEP_CACHE[key]
+
+
+_FUNC_CACHE = {}
+
+
+def _func_lines(case):
+    """{"file.py:function": number of line events} of one traced dry run of the scenario."""
+    probe = dict(case, preempt_at={"__probe__": {"1": 1}})
+    _count_steps(probe)
+    return _FUNC_CACHE[repr(probe)]
